@@ -283,7 +283,7 @@ def runSession (po : Nat → PriceOps P) (ms : Markets) (k : Nat) (cfg : Session
   let ops0 : List (MOp P) := w.map (fun x => (x.1, Op.setRunning x.2))
   if body.out.ok then
     { body with
-      out := { tr := head ++ body.out.tr ++ [Ev.hookSessionAfter k (start + cfg.steps - 1), Ev.sessionEnd k, Ev.flush],
+      out := { tr := head ++ body.out.tr ++ [Ev.hookSessionAfter k (((start + cfg.steps : Nat) : Int) - 1), Ev.sessionEnd k, Ev.flush],
                ok := true, flag := body.out.flag },
       ops := ops0 ++ body.ops }
   else { body with out := { body.out with tr := head ++ body.out.tr }, ops := ops0 ++ body.ops }
